@@ -161,6 +161,11 @@ func (m *machine) emit(e obj) {
 	if err := m.out.Encode(e); err != nil {
 		fatal("emit: %v", err)
 	}
+	for _, sp := range takeSidePanics() { // panics raised while observing, behind the event of the step
+		if err := m.out.Encode(sp); err != nil {
+			fatal("emit: %v", err)
+		}
+	}
 }
 
 // abort is called by the watchdog goroutine: it records what the hung step was and ends the process.
@@ -365,10 +370,23 @@ func reencode(p any) (b []int, failed bool) {
 		return []int{}, true
 	}
 	var buf bytes.Buffer
-	if _, err := w.WriteTo(&buf); err != nil {
+	failed = true
+	guarded("WriteTo", "WriteTo", func() {
+		if _, err := w.WriteTo(&buf); err == nil {
+			failed = false
+		}
+	})
+	if failed {
 		return []int{}, true
 	}
 	return ints(buf.Bytes()), false
+}
+
+// printedSize: the N of "N bytes" in String(), -1 if there is none (or String panics: a Panic event of its own).
+func printedSize(p any) int {
+	n := -1
+	guarded("Diag", "String", func() { n = strN(p.(fmt.Stringer).String()) })
+	return n
 }
 
 // runStep executes one step; a panic inside the library is turned into a Panic event.
@@ -436,7 +454,7 @@ func (m *machine) runStep(idx int, s step) (stop bool) {
 		if s.Writer != nil {
 			w.plan = *s.Writer
 		}
-		strN0 := strN(p.(fmt.Stringer).String()) // the size String() prints before the write
+		strN0 := printedSize(p) // the size String() prints before the write
 		n, err := p.(io.WriterTo).WriteTo(w)
 		offered := []any{}
 		for _, o := range w.offered {
@@ -449,7 +467,7 @@ func (m *machine) runStep(idx int, s step) (stop bool) {
 		m.written[s.H] = append([]byte{}, w.accepted...)
 		e := obj{"ev": "WriteTo", "h": s.H, "writes": calls, "n": int(n), "err": errTag(err),
 			"offered": offered, "accepted": ints(w.accepted), "wkind": w.plan.Kind, "wk": w.plan.K,
-			"strN": strN(p.(fmt.Stringer).String()), "strN0": strN0, "type": typeName(p)}
+			"strN": printedSize(p), "strN0": strN0, "type": typeName(p)}
 		m.attachObs(e, s.H, s.NoObs)
 		m.emit(e)
 
@@ -624,11 +642,9 @@ func (m *machine) runStep(idx int, s step) (stop bool) {
 		}
 		e := obj{"ev": "Diag", "h": s.H, "type": typeName(p), "first": first, "string": ints([]byte(str)), "dump": ints(dump.Bytes()),
 			"malformed": strings.Contains(str, "malformed!"), "strN": strN(str)}
+		e["hasWF"] = false
 		if wf, ok := p.(mq.HasWellFormed); ok {
-			e["wfErr"] = wf.WellFormed() != nil
-			e["hasWF"] = true
-		} else {
-			e["hasWF"] = false
+			e["hasWF"] = guarded("WellFormed", "WellFormed", func() { e["wfErr"] = wf.WellFormed() != nil })
 		}
 		m.attachObs(e, s.H, s.NoObs)
 		m.emit(e)
@@ -641,8 +657,15 @@ func (m *machine) runStep(idx int, s step) (stop bool) {
 			fatal("Filter wants [filter, options]")
 		}
 		tf := mq.NewTopicFilter(string(toBytes(fb)), mq.Opt(opt))
-		str := tf.String()
-		m.emit(obj{"ev": "Filter", "args": s.Args, "wfErr": tf.WellFormed() != nil, "string": ints([]byte(str)),
+		var str string
+		var wfErr bool
+		okWF := guarded("WellFormed", "WellFormed", func() { wfErr = tf.WellFormed() != nil })
+		okS := guarded("Diag", "String", func() { str = tf.String() })
+		if !okWF || !okS {
+			m.emit(obj{"ev": "Skip", "op": s.Op, "why": "observation panicked"})
+			return false
+		}
+		m.emit(obj{"ev": "Filter", "args": s.Args, "wfErr": wfErr, "string": ints([]byte(str)),
 			"filter": ints([]byte(tf.Filter())), "options": int(tf.Options())})
 
 	case "NewFilter":
@@ -748,11 +771,12 @@ func (m *machine) runStep(idx int, s step) (stop bool) {
 }
 
 // listLens reports the lengths of every list a packet holds (C05).
-func listLens(p any) obj {
-	out := obj{}
+func listLens(p any) (out obj) {
+	out = obj{}
 	if isNilPacket(p) {
 		return out
 	}
+	defer func() { recover() }() // an accessor that panics is reported by the projection
 	v := reflect.ValueOf(p)
 	for _, name := range []string{"Filters", "ReasonCodes", "SubscriptionIDs"} {
 		if meth := v.MethodByName(name); meth.IsValid() && meth.Type().NumIn() == 0 {
